@@ -116,6 +116,9 @@ def spaces(tier, seed):
                                      'voltage at both ends of a flank, plateaus, flat flanks)'))
     out.append(ProductSpace('embedded{-2,0,1,3}^5', [[-2, 0, 1, 3]] * 5 + [[(), ('amp',)]], evaluate,
                             describe="'aa' + every 5 samples over {-2,0,1,3} + 'aa' x both burst methods"))
+    from bcmc.explore import ListSpace
+    out.append(ListSpace('long-recordings', S.long_cases(['@A', '@B', '@C', '@D'], [(), ('amp',)]), evaluate,
+                         describe='long real-valued recordings (660 / 1430 / 300 / 200 cycles) x both burst methods'))
     if tier != 'quick':
         al = S.alphabet(6, seed, extra=2)
         devs = [d for d in S.option_sets(2, [k for k in S.DEVIATIONS if k not in ('trough', 'neg', 'int16big')])]
